@@ -47,6 +47,9 @@ def gen_case(rng):
         mal = ['offset', rng.randrange(n), rng.choice([1, 0x100, 0x1FF, 0x201])]
     elif r < 0.24 and n:
         mal = ['name', rng.randrange(n), rng.randrange(0, 8), rng.choice([0x80, 0xC3, 0xFF])]
+        if rng.random() < 0.5:
+            # a well-formed multi-byte UTF-8 sequence: not ASCII either (a decoder switched to UTF-8 would accept it)
+            mal = ['name2', rng.randrange(n), rng.randrange(0, 7), rng.choice([0xC3A9, 0xCEA9, 0xD0B6])]
     return dict(files=files, slots=slots, start=start, mal=mal, pseed=rng.randrange(1 << 30))
 
 
@@ -61,6 +64,9 @@ def run_case(ctx, mr, case):
         if mal[0] == 'offset':
             off = int.from_bytes(img[16 * slot + 8:16 * slot + 12], 'little') + mal[2]
             img[16 * slot + 8:16 * slot + 12] = off.to_bytes(4, 'little')
+        elif mal[0] == 'name2':
+            pos = min(mal[2], max(0, len(files[mal[1]][0]) - 1), 6)
+            img[16 * slot + pos:16 * slot + pos + 2] = mal[3].to_bytes(2, 'big')
         else:
             pos = min(mal[2], len(files[mal[1]][0]) - 1)
             img[16 * slot + pos] = mal[3]
@@ -97,7 +103,7 @@ def run_case(ctx, mr, case):
     if mal:
         if err != exp_err:
             # a corrupted name byte that happens to stay ASCII / offset landing on a multiple is not an error
-            still_bad = (mal[0] == 'offset') or (mal[3] >= 0x80)
+            still_bad = (mal[0] in ('offset', 'name2')) or (mal[3] >= 0x80)
             if still_bad:
                 ctx.diff('oracle', 'exefs-reject:' + mal[0], case, exp_err, err, f'malformed {mal[0]} not rejected with the ExeFS error')
         return
